@@ -187,6 +187,7 @@ def runScan (H : Format.HashFn) (D : Format.Decomp) (f : Bytes) (ops : List Char
     let mut ok := true
     let mut itoks := (impl.getD []).drop 1
     let mut before := c.valid
+    let mut errd := false
     for o in ops do
       let it := itoks.head?.getD ""
       itoks := itoks.drop 1
@@ -199,7 +200,9 @@ def runScan (H : Format.HashFn) (D : Format.Decomp) (f : Bytes) (ops : List Char
         | [rs, fl] =>
           match rs.toInt? with
           | some ri =>
-            let p := if o == 'd' then PredRead.c09_data_ok H f ri (flagsOf fl) before
+            -- a context whose read failed is in the error state: validations are refused (0) and must leave the marks alone
+            let p := if errd then ri == 0 && flagsOf fl == before
+                     else if o == 'd' then PredRead.c09_data_ok H f ri (flagsOf fl) before
                      else PredRead.c09_scan_ok H f ri (flagsOf fl) before
             ok := ok && p
             before := flagsOf fl
@@ -214,6 +217,9 @@ def runScan (H : Format.HashFn) (D : Format.Decomp) (f : Bytes) (ops : List Char
           -- bytes of the successful calls before the first r <= 0
           return out
         outs := outs.push s!"r={lastRet}:{got.length}:{PredRead.showBytes got}"
+        -- reading verifies chunks as it goes: the marks a later validation must leave alone are those after the read
+        before := c.valid
+        errd := errd || lastRet < 0
       else if o == 'c' then
         outs := outs.push s!"c={if Reader.close H c then 1 else 0}"
       else if o == 'e' then
